@@ -350,6 +350,12 @@ def install_spec_builtins(ip):
     from .values import FuncVal
     B["undecorated"] = Builtin("undecorated", _undecorated)
 
+    def _freeze_time(ip, a, k):
+        """the clock reads exactly a[0] for the rest of this path (one logical instant; A8)"""
+        ip.path.frozen_time = a[0]
+        return True
+    B["freeze_time"] = Builtin("freeze_time", _freeze_time)
+
     B["resolve_class"] = Builtin("resolve_class", lambda ip, a, k: ip.resolve_class(a[0]))
     B["resolve_module"] = Builtin("resolve_module", lambda ip, a, k: ip.src.load_path(a[0]))
 
